@@ -4,6 +4,8 @@ import PybropsModel.Model.StoreCopy
 import PybropsModel.Model.StoreVcf
 import PybropsModel.Model.StoreFrame
 import PybropsModel.Model.StoreGraph
+import PybropsModel.Model.StoreSpec
+import PybropsModel.Model.StoreFrameK
 open Lean
 
 namespace Drv.C16
@@ -105,14 +107,6 @@ def objOfAny (j : Json) : J.R Obj :=
   | .obj kvs => kvs.toList.mapM (fun (k, v) => do let it ← item v; pure (k, it))
   | _ => J.fail "object expected"
 
-/-- dictionaries compare as finite maps -/
-def dictEq (a b : List (String × Option DS)) : Bool :=
-  a.length == b.length && a.all (fun (k, v) => b.lookup k == some v)
-
-def itemEq : Item → Item → Bool
-  | .dict a, .dict b => dictEq a b
-  | x, y => x == y
-
 /-- **Spec oracle** `c16.spec_obj`: observable equality of the object read back (`got`) and the
     object last written (`want`), field by field over the class's schema: dtype, shape, values -/
 def opSpecObj : J.Op := fun j => do
@@ -127,9 +121,9 @@ def opSpecObj : J.Op := fun j => do
       let w ← objOf sch (← J.field j "want" pure)
       let g ← objOf sch (← J.field j "got" pure)
       pure (w, g)
-  let bad := (List.zip want got).filter (fun (a, b) => !(itemEq a.2 b.2))
-  pure <| J.obj [("ok", J.ofBool (bad.isEmpty && want.length == got.length)),
-                 ("diff", J.ofList J.ofStr (bad.map (·.1.1)))]
+  -- the oracle itself lives in Model/StoreSpec.lean (`specObj_iff`, `specObj_refl` in Lemmas/StoreSpecLemmas.lean)
+  pure <| J.obj [("ok", J.ofBool (StoreSpec.specObj want got)),
+                 ("diff", J.ofList J.ofStr (StoreSpec.diffKeys want got))]
 
 /-- `c16.construct`: does the modelled constructor accept the object, and what does it store -/
 def opConstruct : J.Op := fun j => do
@@ -224,32 +218,15 @@ def opSpecVcf : J.Op := fun j => do
   let nam ← J.field j "name" (J.list J.str)
   let matP ← J.fieldD j "matP" (J.list (J.mat J.int)) []
   let matU ← J.fieldD j "matU" (J.mat J.int) []
+  let o : StoreVcf.Got := ⟨taxa, chr, pos, nam, matP, matU⟩
   let n := samples.length
   let p := recs.length
-  -- column of variant j as the implementation stores it
-  let colOut (jx : Nat) : List Int :=
-    if phased then (List.range 2).flatMap (fun ph => (List.range n).map (fun i => StoreVcf.entry3' matP ph i jx))
-    else (List.range n).map (fun i => ((matU.getD i []).getD jx 0))
-  let colRec (r : StoreVcf.Rec) : List Int :=
-    if phased then r.calls.map (·.1) ++ r.calls.map (·.2) else r.calls.map (fun c => c.1 + c.2)
-  -- a record without identifier (`.`) has nothing to reproduce: its name is not compared
-  let outVars := (List.range p).map (fun jx => (chr.getD jx 0, pos.getD jx 0, colOut jx))
-  let recVars := recs.map (fun r => (r.chrom, r.pos, colRec r))
-  let outNamed := (List.range p).map (fun jx => (chr.getD jx 0, pos.getD jx 0, nam.getD jx "", colOut jx))
-  let recNamed := (recs.zip hasId).filterMap (fun rh => if rh.2 then some (rh.1.chrom, rh.1.pos, rh.1.id, colRec rh.1) else none)
-  let namesFileOrder := ((recs.zip hasId).zipIdx).all (fun rhi => !rhi.1.2 || nam.getD rhi.2 "" == rhi.1.1.id)
-  let namesAnyOrder := recNamed.all (fun v => recNamed.count v ≤ outNamed.count v)
-  let shapeOk := chr.length == p && pos.length == p && nam.length == p &&
-    (if phased then matP.length == 2 && matP.all (fun pl => pl.length == n && pl.all (·.length == p))
-     else matU.length == n && matU.all (·.length == p))
-  let sameOrder := outVars == recVars
-  let isPerm := outVars.length == recVars.length && outVars.all (fun v => outVars.count v == recVars.count v)
-  let sorted := (List.range (p - 1)).all (fun jx =>
-    !(StoreVcf.keyLt (chr.getD (jx + 1) 0, pos.getD (jx + 1) 0) (chr.getD jx 0, pos.getD jx 0)))
-  let ok := taxa == samples && shapeOk &&
-    (if g then isPerm && sorted && namesAnyOrder else sameOrder && namesFileOrder)
+  -- the oracle itself lives in Model/StoreVcf.lean (`specVcf`; `specVcf_sound` in Lemmas/StoreVcfSpec.lean)
+  let ok := StoreVcf.specVcf samples recs hasId g phased o
+  let outVars := (List.range p).map (StoreVcf.outVar phased n o)
+  let recVars := recs.map (StoreVcf.recVar phased)
   pure <| J.obj [("ok", J.ofBool ok),
-    ("detail", J.ofStr s!"taxa={taxa == samples} shape={shapeOk} same_order={sameOrder} perm={isPerm} sorted={sorted}")]
+    ("detail", J.ofStr s!"taxa={taxa == samples} shape={StoreVcf.shapeOk phased n p o} same_order={outVars == recVars} perm={outVars.all (fun v => outVars.count v == recVars.count v)}")]
 
 def ofName : StoreFrame.Name → Json
   | .s v => J.ofStr v
@@ -345,6 +322,25 @@ def opFrameVMat : J.Op := fun j => do
       ("taxa_grp", J.ofOpt (J.ofList J.ofInt) r.taxa_grp), ("trait", J.ofList J.ofStr r.trait)]
   | .error e => pure (ofErr e)
 
+/-- `c16.frame_vmatk`: variance matrix with `k` parental axes, long layout; the matrix travels as its
+    C-ordered buffer (cells nobody addressed are `null`) -/
+def opFrameVMatK : J.Op := fun j => do
+  let k ← J.field j "k" J.nat
+  let flat ← J.field j "flat" (J.list J.rat)
+  let taxa ← J.field j "taxa" (J.list J.str)
+  let grp ← J.field j "taxa_grp" (J.opt (J.list J.int))
+  let trait ← J.field j "trait" (J.list J.str)
+  let wg ← J.field j "with_grp" J.bool
+  let n := taxa.length
+  let t := trait.length
+  let v : StoreFrame.KMat Rat := ⟨k, taxa, grp, trait, fun ix c => flat.getD (StoreFrame.flatIndex n t ix c) 0⟩
+  match StoreFrame.kmFromPandas k (StoreFrame.kmToPandas v wg) wg with
+  | .ok r =>
+    let out := (StoreFrame.tuples r.taxa.length k).flatMap (fun ix => (List.range r.trait.length).map (fun c => r.cell ix c))
+    pure <| J.obj [("flat", J.ofList (J.ofOpt J.ofRat) out), ("taxa", J.ofList J.ofStr r.taxa),
+      ("taxa_grp", J.ofOpt (J.ofList J.ofInt) r.taxa_grp), ("trait", J.ofList J.ofStr r.trait)]
+  | .error e => pure (ofErr e)
+
 /-! object graphs: ref = null | {"imm": ds} | {"ptr": n};
     cell = {"arr": ds} | {"dict": [[k, ref], …]} | {"obj": cls, "attrs": [[k, ref], …]} | {"ext": name} -/
 
@@ -400,7 +396,7 @@ def ops : List (String × J.Op) :=
    ("c16.parse_path", opParsePath), ("c16.valid", opValid), ("c16.copy", opCopy),
    ("c16.vcf", opVcf), ("c16.spec_vcf", opSpecVcf), ("c16.frame_bv", opFrameBV),
    ("c16.frame_gmap", opFrameGMap), ("c16.frame_cmat", opFrameCMat), ("c16.frame_egmap", opFrameEMap),
-   ("c16.frame_model", opFrameModel), ("c16.frame_vmat", opFrameVMat),
+   ("c16.frame_model", opFrameModel), ("c16.frame_vmat", opFrameVMat), ("c16.frame_vmatk", opFrameVMatK),
    ("c16.deepcopy_graph", opDeepcopyGraph)]
 
 end Drv.C16
